@@ -98,7 +98,7 @@ contract(M + "Step.run", props=P,
          callsites={"runner.step_registry.find_match": "abs:find_match"},
          loops=[Loop(broadcast=("abs:fmt.match", "match")), Loop(broadcast=("abs:fmt.result", "result")),
                 Loop(broadcast=("abs:fmt.match", "match")), Loop(broadcast=("abs:fmt.result", "result"))],
-         modifies=["G_bad", "G_nhooks", "G_hook_name", "G_hook_arg", "G_ncalls", "G_calls", "G_nev", "G_ev_kind",
+         modifies=["G_bad", "G_nhooks", "G_hook_name", "G_hook_arg", "G_hook_out", "G_hook_err", "G_ncalls", "G_calls", "G_nev", "G_ev_kind",
                    "G_ev_arg", "G_ev_status", "G_ctx_aborted", "*.status", "*.hook_failed", "*.duration", "*.exception",
                    "*.exc_traceback", "*.error_message", "*.captured", "*.should_skip", "*.skip_reason",
                    "*._cached_status", "runner.hook_failures", "list(runner._undefined_steps)",
@@ -180,6 +180,14 @@ contract(M + "Step.run", props=P,
                  "implies(not quiet, G_ev_status(old(G_nev) + 1) == self.status)",
              "quiet-emits-nothing": "implies(quiet, G_nev == old(G_nev))",
              # ---- C18 -------------------------------------------------------------------------------------
+             "step-hooks-run-while-output-is-captured":
+                 "implies(%s and capture and runner.capture_controller.config.stdout_capture, "
+                 "implies(%s, G_hook_out(%s) is runner.capture_controller.stdout_capture) and "
+                 "implies(%s, G_hook_out(%s) is runner.capture_controller.stdout_capture)) and "
+                 "implies(%s and capture and runner.capture_controller.config.stderr_capture, "
+                 "implies(%s, G_hook_err(%s) is runner.capture_controller.stderr_capture) and "
+                 "implies(%s, G_hook_err(%s) is runner.capture_controller.stderr_capture))"
+                 % (DEFINED, HAS_BEFORE, N0, HAS_AFTER, AFTER_IDX, DEFINED, HAS_BEFORE, N0, HAS_AFTER, AFTER_IDX),
              "real-streams-restored": "sys.stdout is old(sys.stdout) and sys.stderr is old(sys.stderr)",
              "capture-invariant-kept": "cinv(runner.capture_controller, sys) and is_none(runner.capture_controller.old_stdout) "
                                        "and is_none(runner.capture_controller.old_stderr)",
